@@ -1074,6 +1074,19 @@ where
         reply_receiver: CmdReplyReceiver,
         key_num: usize,
     ) -> TaskResult {
+        // `numkeys` comes from the client and can't be trusted.
+        let arg_num = cmd_ctx
+            .get_cmd()
+            .get_command_len()
+            .unwrap_or(0)
+            .saturating_sub(3);
+        if key_num > arg_num {
+            cmd_ctx.set_resp_result(Ok(Resp::Error(
+                b"ERR Number of keys can't be greater than number of args".to_vec(),
+            )));
+            return reply_receiver.await;
+        }
+
         let keys: Vec<_> = (3..3 + key_num)
             .filter_map(|i| cmd_ctx.get_cmd().get_command_element(i))
             .map(|b| b.to_vec())
